@@ -650,7 +650,7 @@ def _split_msh(content):
         except ValueError:
             if len(seps) < N_SEPS:
                 raise InvalidEncodingChars('Missing required encoding chars')
-            elif len(seps) == N_SEPS_27 and fields[11] >= '2.7':
+            elif len(seps) == N_SEPS_27 and len(fields) > 11 and fields[11] >= '2.7':
                 comp_sep, rep_sep, escape, sub_sep, trunc_sep = seps
             else:
                 raise InvalidEncodingChars('Found {0} encoding chars'.format(len(seps)))
